@@ -175,9 +175,43 @@ class BodyEmitter:
             if i in self.replace:
                 j, text, kind, tline = self.replace[i]
                 self._verb(cur, t.start)
-                self.out.append(Seg(text, "edit", {"fn": self.fn, "edit": kind, "tline": tline,
-                                                   "file": self.sf.path,
-                                                   "repo_line": self.sf.text.count("\n", 0, t.start) + 1}))
+                info = {"fn": self.fn, "edit": kind, "tline": tline, "file": self.sf.path,
+                        "repo_line": self.sf.text.count("\n", 0, t.start) + 1}
+                parts = re.split(r"\x00(\d+):(\d+)\x00", text)
+                k = 0
+                while k < len(parts):
+                    if parts[k]:
+                        # a labelled clause inside a declared edit (`/*# label [Cxx] #*/` in front of it) is a contract clause
+                        pos = 0
+                        for mm in re.finditer(r"/\*#\s*([A-Za-z0-9_]+)\s*\[([^\]]*)\]\s*#\*/", parts[k]):
+                            if mm.start() > pos:
+                                self.out.append(Seg(parts[k][pos:mm.start()], "edit", info))
+                            pos = mm.end()
+                            # the clause runs up to the next top-level `,` `{` or end of the part
+                            e = pos
+                            depth = 0
+                            while e < len(parts[k]):
+                                c = parts[k][e]
+                                if c in "([":
+                                    depth += 1
+                                elif c in ")]":
+                                    depth -= 1
+                                elif c in ",{" and depth == 0:
+                                    break
+                                e += 1
+                            props = [x for x in mm.group(2).split(",") if x]
+                            self.out.append(Seg(parts[k][pos:e], "contract", {"fn": self.fn, "tline": tline, "label": mm.group(1),
+                                                                             "props": props, "claim": True}))
+                            self.u.clauses.append({"fn": self.fn, "label": mm.group(1), "props": props, "text": parts[k][pos:e].strip()})
+                            pos = e
+                        if pos < len(parts[k]):
+                            self.out.append(Seg(parts[k][pos:], "edit", info))
+                    if k + 2 < len(parts):
+                        a0, a1 = int(parts[k + 1]), int(parts[k + 2])
+                        if a1 > a0:
+                            c2 = self.emit(a0, a1, toks[a0].start)
+                            self._verb(c2, toks[a1 - 1].end)
+                    k += 3
                 cur = toks[j - 1].end
                 i = j
                 continue
@@ -350,8 +384,9 @@ def _find_pattern(sf, lo, hi, pat_text, what, binds=None):
         e = _match_at(toks, i, hi, pat, 0, b)
         if e is not None and e > i:
             for key in list(b.keys()):
-                if key.startswith("$$") and isinstance(b[key], tuple):
+                if key.startswith("$$") and not key.endswith("@") and isinstance(b[key], tuple):
                     a0, a1 = b[key]
+                    b[key + "@"] = (a0, a1)     # token range, for `deep` edits (the captured text is re-emitted through the emitter)
                     b[key] = sf.text[toks[a0].start:toks[a1 - 1].end] if a1 > a0 else ""
             hits.append(i)
             all_b.append(b)
@@ -364,7 +399,11 @@ def _find_pattern(sf, lo, hi, pat_text, what, binds=None):
     return hits, n, (first_b or {})
 
 
-def _subst(text, binds):
+def _subst(text, binds, deep=False):
+    if deep:
+        # `$$N` -> marker carrying the token range: the emitter re-emits that range (nested declared edits and the
+        # automatic macro rewrite apply inside the carried text)
+        text = re.sub(r"\$\$([0-9]+)", lambda m: ("\x00%d:%d\x00" % binds["$$" + m.group(1) + "@"]) if ("$$" + m.group(1) + "@") in binds else m.group(0), text)
     text = re.sub(r"\$\$([0-9]+)", lambda m: binds.get("$$" + m.group(1), m.group(0)), text)
     return re.sub(r"\$([A-Za-z_][A-Za-z0-9_]*)", lambda m: binds.get(m.group(1), m.group(0)), text)
 
@@ -756,15 +795,28 @@ def _emit_fn(unit, repo, rel, scope, name, opts, flags, contract, directives, va
             nw = pat.count("$$")
             carried = all(("$$%d" % k) in rep for k in range(1, nw + 1))   # every wildcard's text is carried into the replacement
             if hits and nw and not carried:
-                orig = " ".join(" ".join(x.text for x in toks[h:per_end.get(h, h + n)] if x.kind not in ("comment", "ws")) for h in hits)
+                # only the wildcard texts that are NOT carried into the replacement are pinned (the literal tokens are
+                # fixed by the pattern; carried texts are emitted and verified as they are)
+                dropped = [k for k in range(1, nw + 1) if ("$$%d" % k) not in rep]
+                chunks = []
+                for h in hits:
+                    hb = per_hit.get(h, {})
+                    for k in dropped:
+                        rng = hb.get("$$%d@" % k)
+                        if rng:
+                            chunks.append(" ".join(x.text for x in toks[rng[0]:rng[1]] if x.kind not in ("comment", "ws")))
+                orig = " | ".join(chunks)
                 pin = hashlib.sha256(orig.encode()).hexdigest()[:12]
                 want = dict(o.split("=", 1) for o in dopts if "=" in o).get("pin")
                 unit.pins.append({"fn": qual, "tline": tline, "template": os.path.basename(template_path), "pin": pin, "declared": want})
-                if want and want != pin:
+                if not want and not os.environ.get("VERIF_SETPINS"):
+                    raise GenError("%s line %d: declared edit with `$$` wildcards whose text is not carried into the replacement has no pin: "
+                                   "review its assumed contract, then run tools/setpins.py" % (os.path.basename(template_path), tline))
+                if want and want != pin and not os.environ.get("VERIF_SETPINS"):
                     raise GenError("anchor lost in %s (%s line %d): the text replaced by this declared edit changed (pin %s, now %s): "
                                    "its assumed contract must be reviewed again" % (qual, os.path.basename(template_path), tline, want, pin))
             for h in hits or []:
-                rep_h = _subst(rep, per_hit.get(h, binds))
+                rep_h = _subst(rep, per_hit.get(h, binds), deep="deep" in dopts)
                 replace[h] = (per_end.get(h, h + n), rep_h, dk.lower(), tline)
                 if not vacuity:
                     unit.edits.append({"fn": qual, "kind": dk.lower(), "file": rel,
